@@ -223,7 +223,26 @@ class Ctx:
             env = dict(env, PYTHONHASHSEED=str(hashseed))
         try:
             with ctx.Pool(max(1, nproc), initializer=_worker_init, initargs=(env,), maxtasksperchild=1 if fresh else None) as pool:
-                for d in pool.imap_unordered(_worker_call, [(modname, funcname, t) for t in tasks], chunksize):
+                it = pool.imap_unordered(_worker_call, [(modname, funcname, t) for t in tasks], chunksize)
+                # watchdog: multiprocessing.Pool waits for ever for the result of a task whose worker was killed (e.g. by the kernel's
+                # out-of-memory killer). A worker that disappears (its pid leaves the pool although workers are never retired), or no
+                # result at all for MZ_STALL_S seconds, is a loud harness error (exit 3) instead of a hang.
+                pids0 = {w.pid for w in pool._pool} if not fresh else None
+                stall, last = float(os.environ.get("MZ_STALL_S", 7200)), time.time()
+                while True:
+                    try:
+                        d = it.next(timeout=20)
+                    except StopIteration:
+                        break
+                    except mp.TimeoutError:
+                        gone = pids0 is not None and not pids0 <= {w.pid for w in pool._pool}
+                        if gone or time.time() - last > stall:
+                            print(f"HARNESS-ERROR: {'a worker process died (killed?)' if gone else f'no result for {stall:.0f}s'} while running "
+                                  f"{modname}.{funcname}; results so far are incomplete", file=sys.stderr)
+                            pool.terminate()
+                            raise SystemExit(3)
+                        continue
+                    last = time.time()
                     self._merge(d)
         finally:
             if hashseed is not None:
